@@ -72,6 +72,7 @@ ViewShapeOK ==
                     /\ \A f \in x.set : \E r \in FieldTable : r.v = x.view /\ r.g = f.g /\ r.k \in {"uint", "bool"}
                     /\ \A r \in x.ranges : 0 <= r.lo /\ r.lo <= r.hi /\ r.hi <= x.len
                     /\ \A y \in x.raw : \A i \in DOMAIN y.b : y.b[i] \in 0..255
+                    /\ \A mp \in x.maps : \A e \in mp.items : 0 <= e.lo /\ e.lo <= e.hi /\ e.hi <= x.len
 
 Export ==
   PrintT(ToJson(
